@@ -2,7 +2,7 @@ STREAM = dict(
     name="oracle", quick=32, thorough=1200, check_module="Genesis.Oracle", check_fn="check_oracle",
     codes={1: "oracle-export-does-not-validate", 2: "oracle-import-panics",
            21: "oracle-import-panics.request-context-missing-because-service-genesis-did-not-import",
-           41: "oracle-feed-value-history-lost-on-import", 42: "oracle-feed-values-differ-after-import", 3: "oracle-second-export-differs",
+           41: "oracle-feed-value-history-lost-on-import", 3: "oracle-second-export-differs",
            4: "oracle-query-differs-after-import", 5: "oracle-state-queue-not-rebuilt"},
     nontrivial="a feed is running (a batch is due) and some feed holds at least two values",
 )
